@@ -1,6 +1,7 @@
 package main
 
 import (
+	"regexp"
 	"fmt"
 	"go/token"
 	"go/types"
@@ -608,13 +609,45 @@ func (f *frame) binop(at ssa.Instruction, op token.Token, x, y T, xt types.Type,
 		if op == token.AND {
 			// x & c <= c for non-negative c
 			e.assume(implies(and("(>= "+y.S+" 0)", "(>= "+x.S+" 0)"), and("(<= "+n+" "+y.S+")", "(<= "+n+" "+x.S+")", "(>= "+n+" 0)")))
+			// masks: x & (2^k - 1) == x mod 2^k (x >= 0);  x & -(2^k) == x - x mod 2^k (two's complement, any x)
+			if c, ok := constInt(y.S); ok {
+				if c > 0 && c < 1<<62 && (c+1)&c == 0 {
+					e.assume(implies(and(st.cond, "(>= "+x.S+" 0)"), eq(n, "(mod "+x.S+" "+fmt.Sprint(c+1)+")")))
+				}
+				if c < 0 && c > -(1<<62) && (-c)&(-c-1) == 0 && !isUnsigned(rt) {
+					e.assume(implies(st.cond, eq(n, "(- "+x.S+" (mod "+x.S+" "+fmt.Sprint(-c)+"))")))
+				}
+			}
+		}
+		if op == token.OR {
+			// (t * 2^k) | y == t * 2^k + y for 0 <= y < 2^k (the low k bits of the left operand are zero)
+			for _, pr := range [][2]T{{x, y}, {y, x}} {
+				if m := mulPow2Re.FindStringSubmatch(pr[0].S); m != nil {
+					if c, ok := constInt(m[1]); ok && c > 0 && c&(c-1) == 0 {
+						e.assume(implies(and(st.cond, "(<= 0 "+pr[1].S+")", "(< "+pr[1].S+" "+m[1]+")"), eq(n, "(+ "+pr[0].S+" "+pr[1].S+")")))
+					}
+				}
+			}
+			// max(x, y) <= x | y <= x + y for non-negative operands
+			e.assume(implies(and("(>= "+y.S+" 0)", "(>= "+x.S+" 0)"), and("(>= "+n+" "+x.S+")", "(>= "+n+" "+y.S+")", "(<= "+n+" (+ "+x.S+" "+y.S+"))")))
+		}
+		if op == token.XOR {
+			e.assume(implies(and("(>= "+y.S+" 0)", "(>= "+x.S+" 0)"), and("(>= "+n+" 0)", "(<= "+n+" (+ "+x.S+" "+y.S+"))")))
 		}
 		return mk(n)
 	}
 	return f.freshVal("binop", rt, st)
 }
 
+var mulPow2Re = regexp.MustCompile(`^\(\* .* (\d+)\)$`)
+
 func constInt(s string) (int64, bool) {
+	if strings.HasPrefix(s, "(- ") && strings.HasSuffix(s, ")") {
+		if n, ok := constInt(s[3 : len(s)-1]); ok && n > 0 {
+			return -n, true
+		}
+		return 0, false
+	}
 	var n int64
 	if _, err := fmt.Sscanf(s, "%d", &n); err == nil && fmt.Sprint(n) == s {
 		return n, true
@@ -888,10 +921,13 @@ func (f *frame) eaTerm(arr, idx string) string {
 	// element addresses are injective in (array, index)
 	e.declFun("ea_idx", []string{"Int"}, "Int")
 	e.declFun("ea_arr", []string{"Int"}, "Int")
-	e.addDecl("ea-inj", "(assert (forall ((a Int) (i Int)) (! (and (= (ea_idx (ea a i)) i) (= (ea_arr (ea a i)) a)) :pattern ((ea a i)))))")
 	t := "(ea " + arr + " " + idx + ")"
 	if !strings.Contains(t, "!q") {
-		e.addDecl("eafact@"+t, "(assert (and (not (= "+t+" 0)) (= (owner "+t+") (owner "+arr+"))))")
+		e.addDecl("eafact@"+t, "(assert (and (not (= "+t+" 0)) (= (owner "+t+") (owner "+arr+")) (= (ea_idx "+t+") "+idx+") (= (ea_arr "+t+") "+arr+")))")
+	} else {
+		// an address under a quantifier: the general axiom (kept out of queries that do not need it -- it costs
+		// the solvers their models)
+		e.addDecl("ea-inj", "(assert (forall ((a Int) (i Int)) (! (and (= (ea_idx (ea a i)) i) (= (ea_arr (ea a i)) a)) :pattern ((ea a i)))))")
 	}
 	return t
 }
